@@ -7,6 +7,7 @@ Each `example` instantiates the theorem named in its comment on concrete data.
 -/
 import ZkVerif.Props.C04System
 import ZkVerif.Props.C20
+import ZkVerif.Props.C14
 import ZkVerif.Lemmas.Z13
 
 namespace ZkVerif.NonVacuity
@@ -113,5 +114,17 @@ the validating decoder, is itself -/
 example : C20.restore R13 env13 .ready (C20.store R13 raw13 (.ready st13 tok13 cs13) ++ [1, 2, 3]) =
     some (.ready st13 tok13 cs13) :=
   C20.restore_store R13 env13 laws13 raw13 (by decide) _ storable13 [1, 2, 3]
+
+/-- the generator hypothesis of `C14.commitment_independent_of_message` is satisfiable (`h = 5` in `Z13`), and the
+conclusion is exhibited: the commitments to `[3]` and to `[8]` under `g = 9` differ by the blinding-factor shift `d = 4` -/
+example : ∀ v : Z13, ∃ x : Z13, x • (5 : Z13) = v := fun v => ⟨v * 8, by
+  show v * 8 * 5 = v
+  have : (8 : Z13) * 5 = 1 := by decide
+  rw [mul_assoc, this, mul_one]⟩
+example : ∀ bf : Z13, commit (⟨5, [9]⟩ : PedParams Z13) bf [3] = commit ⟨5, [9]⟩ (bf + 4) [8] := by decide
+
+/-- `C14.cproof_independent_of_witness` has two genuinely different openings to apply to: `(bf, m) = (1, 3)` and
+`(5, 8)` open the same commitment under `h = 5`, `g = 9` -/
+example : commit (⟨5, [9]⟩ : PedParams Z13) 1 [3] = commit ⟨5, [9]⟩ 5 [8] := by decide
 
 end ZkVerif.NonVacuity
